@@ -112,6 +112,12 @@ def cvEvalPair (st : St) (a : KV) : St × String :=
   let id := a.str "id" "c"
   let now := a.int "now" 0
   let (tbl1, r1) := evalCurve indef st.sensors now (st.curves.length + 2) st.curves id
+  -- set=<sensor>:<avg>: the first evaluation has read that sensor already when it is suspended (the generator orders the
+  -- members accordingly); the second one sees the new value, which also stays
+  let sensors2 := match (a.str "set" "-").splitOn ":" with
+    | [sid, v] => st.sensors.map (fun p => if p.1 == sid then (p.1, { p.2 with avg := parseF v }) else p)
+    | _ => st.sensors
+  let st := { st with sensors := sensors2 }
   let (tbl2, r2) := evalCurve indef st.sensors now (st.curves.length + 2) tbl1 id
   let show_ := fun (r : Res Int) => match r with
     | .ok v => s!"i{v}"
@@ -181,6 +187,19 @@ def opFan (st : St) (op : String) (a : KV) : St × String :=
       | "max" => st.fan.setMax v force
       | _ => st.fan.setMin v force
     ({ st with fan := f }, fanState f)
+  | "fan.restart" =>
+    -- a restart: the curve data are saved (refused for a non-finite value: json.Marshal), a NEW fan object of the same
+    -- configuration loads and attaches them (Model/Persist.lean: C14_roundtrip gives back what was saved)
+    match st.fan.kind, st.fan.curveData with
+    | .hwmon, some d =>
+      if d.all (fun p => p.2.isFinite) then
+        let nf := FanSt.new st.fan.kind st.fan.neverStop st.fan.cfgMin st.fan.cfgStart st.fan.cfgMax
+        let (f, r) := nf.attach indef (some d)
+        match r with
+        | .ok _ => ({ st with fan := f }, "ok " ++ fanState f)
+        | _ => ({ st with fan := f }, "err:attach " ++ fanState f)
+      else (st, "err:save " ++ fanState st.fan)
+    | _, _ => (st, "skip " ++ fanState st.fan)
   | "fan.get" => (st, fanState st.fan)
   | _ => (st, "bad-op")
 
